@@ -3,7 +3,14 @@ package main
 // splitmix64: every random choice of a run derives from one state seeded by VERIF_SEED.
 type rng struct{ s uint64 }
 
-func newRng(seed uint64) *rng { return &rng{s: seed*0x9e3779b97f4a7c15 + 0x1234567} }
+// The seed is hashed into the initial state (a state that is linear in the seed would make the
+// streams of consecutive seeds shifted copies of each other).
+func newRng(seed uint64) *rng {
+	z := seed*0x9e3779b97f4a7c15 + 0x1234567
+	z = (z ^ (z >> 30)) * 0xbf58476d1ce4e5b9
+	z = (z ^ (z >> 27)) * 0x94d049bb133111eb
+	return &rng{s: z ^ (z >> 31)}
+}
 
 func (r *rng) next() uint64 {
 	r.s += 0x9e3779b97f4a7c15
